@@ -762,8 +762,12 @@ def apply_contract(I, c, ex, args, kwargs):
                     result_bound = True
                     continue
                 if isinstance(left, ast.Attribute) and covered(ltxt) and ltxt not in bound:
-                    val = I.eval(node.comparators[0], e2)
-                    o = I.resolve_opt(I.eval(left.value, e2))
+                    try:
+                        val = I.eval(node.comparators[0], e2)
+                        o = I.resolve_opt(I.eval(left.value, e2))
+                    except (pyvc.Raised, OutOfFragment):
+                        P.ghost.setdefault('unassumed', set()).add((qn, ename))
+                        continue
                     if isinstance(o, Obj):
                         o.fields[left.attr] = val
                         bound.add(ltxt)
@@ -771,19 +775,22 @@ def apply_contract(I, c, ex, args, kwargs):
             try:
                 t = I.truth(I.eval(node, e2))
             except pyvc.Raised:
-                # the callee guarantees its postcondition evaluates (to True): a post-state in which
-                # evaluating it fails is not a state the callee returns in
-                raise pyvc.Infeasible()
+                # the clause cannot be evaluated on this caller's view of the post-state (e.g. the
+                # result's kind is not stated): it is not assumed - pruning the path instead could
+                # make every path of the caller vanish and its proof vacuous
+                P.ghost.setdefault('unassumed', set()).add((qn, ename))
+                continue
             except OutOfFragment:
                 # a postcondition the executor cannot state on this caller's (more abstract) values
                 # is simply not assumed: the caller knows less, never more
                 P.ghost.setdefault('unassumed', set()).add((qn, ename))
                 continue
             P.assume(t)
-    P.event('return', qn, id(loc['result']))
     if not has_result and not result_bound:
         # the contract says nothing about the returned value: callers must not assume None
-        return Opaque('object', 'unspecified-result-of-' + ex.name)
+        loc['result'] = Opaque('object', 'unspecified-result-of-' + ex.name)
+    P.event('return', qn, id(loc['result']))
+    P.ghost.setdefault('results', {})[c.key] = loc['result']      # last value returned by this callee (for trace predicates)
     return loc['result']
 
 
